@@ -157,7 +157,16 @@ impl AgentStatusSharedState {
 
             while let Some(action) = rx.recv().await {
                 #[cfg(azure_guestproxyagent_verif)]
-                crate::shared_state::verif_actor::on_message("agent_status", "any");
+                crate::shared_state::verif_actor::on_message(
+                    "agent_status",
+                    match &action {
+                        AgentStatusAction::AddOneConnectionSummary { .. } => "AddOneConnectionSummary",
+                        AgentStatusAction::AddOneFailedConnectionSummary { .. } => {
+                            "AddOneFailedConnectionSummary"
+                        }
+                        _ => "other",
+                    },
+                );
                 match action {
                     AgentStatusAction::SetStatusMessage {
                         message,
